@@ -97,6 +97,7 @@ def run(name, budget):
             open(p, 'w').write(s.replace(old, new, 1))
         subprocess.run([sys.executable, '-m', 'py_compile', p], check=True)
         env = dict(os.environ, BILLIARD_SRC=d)
+        env.setdefault('VERIF_MINIMISE_S', '8')
         out = subprocess.run([sys.executable, os.path.join(VERIF, 'bin', 'check.py'), prop, '--tier', 'quick',
                               '--budget', str(budget), '--no-evidence'],
                              env=env, capture_output=True, text=True, timeout=1800)
